@@ -527,6 +527,35 @@ pub fn run(spec: &SeqSpec, hist: &[Op], cfg: &Cfg, stats: &SeqStats) -> Result<R
         }
     }
     api.add_str(&format!("{:?}", m.all()));
+    // snapshot iteration (dump_data().iter()) must agree with range reads
+    if o.semantics || o.journal {
+        let snap = std::panic::catch_unwind(std::panic::AssertUnwindSafe(|| {
+            let mut d = sut.rl().dump_data();
+            let mut v = vec![];
+            for item in d.iter() {
+                match item {
+                    Ok(x) => v.push(x),
+                    Err(e) => return Err(format!("Err({:?}): {}", e.kind(), e)),
+                }
+            }
+            Ok(v)
+        }));
+        let snap = match snap {
+            Ok(x) => x,
+            Err(p) => Err(format!("PANIC: {}", crate::sut::panic_msg(p))),
+        };
+        if snap.as_ref().ok() != Some(&m.all()) {
+            let key = read_failure_key(&sut, &m, hist, snap.is_err());
+            return Err(vio(
+                spec,
+                &key,
+                format!("dump_data().iter() = {:?}, model {:?}", snap, m.all()),
+                hist,
+                cfg,
+                json!({"observer": "snapshot iteration"}),
+            ));
+        }
+    }
 
     let chunks = sut.chunks();
     if o.semantics || o.journal {
